@@ -28,7 +28,10 @@ func verifC02Liquidity(op int) {
 		lpt = pool.LptDenom
 	}
 	poolAddr := types.GetReservePoolAddr(lpt)
-	for _, d := range []string{csStd, "btc"} {
+	if op != 1 {
+		e.donate(pool, "eth") // a third denomination sitting in the pool's escrow account
+	}
+	for _, d := range []string{csStd, "btc", "eth"} {
 		e.bank.fund(e.sender, d, verifIntIn("balS_"+d, zero, verifPow2(131)))
 		e.bank.fund(e.other, d, verifIntIn("balO_"+d, zero, verifPow2(66)))
 	}
@@ -45,7 +48,7 @@ func verifC02Liquidity(op int) {
 	srv := NewMsgServerImpl(e.k)
 	accts := map[string]sdk.AccAddress{"sender": e.sender, "other": e.other, "pool": poolAddr,
 		"module": vModuleAddr(types.ModuleName), "feecol": vModuleAddr(csFeeCollector), "holder": e.holder}
-	denoms := []string{csStd, "btc", lpt}
+	denoms := []string{csStd, "btc", "eth", lpt}
 	params := e.k.GetParams(e.ctx)
 	var call func() error
 	var a1, a2, a3 *big.Int // the three user-stated figures of the message
@@ -78,9 +81,9 @@ func verifC02Liquidity(op int) {
 		denoms = append(denoms, "side:"+msg.MinToken.Denom)
 	}
 	side := ""
-	if n := len(denoms); n == 4 {
-		side = denoms[3][5:]
-		denoms = denoms[:3]
+	if n := len(denoms); n == 5 {
+		side = denoms[4][5:]
+		denoms = denoms[:4]
 	}
 	before := e.sheet(accts, denoms)
 	err, _ := e.verifDeliver(call)
@@ -106,7 +109,8 @@ func verifC02Liquidity(op int) {
 			verifAssert(d("feecol/"+dn).Sign() == 0, "fee collector untouched")
 		}
 	}
-	verifAssert(d("supply/btc").Sign() == 0, "token supply unchanged")
+	verifAssert(d("supply/btc").Sign() == 0 && d("supply/eth").Sign() == 0, "token supply unchanged")
+	verifAssert(d("sender/eth").Sign() == 0 && d("pool/eth").Sign() == 0, "a denomination outside the pool never moves")
 	minted := d("supply/" + lpt)
 	verifAssert(d("sender/"+lpt).Cmp(minted) == 0 && d("pool/"+lpt).Sign() == 0, "shares are minted to / burned from the sender only")
 	switch op {
@@ -160,12 +164,7 @@ func verifC02Liquidity(op int) {
 	}
 }
 
-func verifC02Side() string {
-	if verifChoice("side", 2) == 1 {
-		return csStd
-	}
-	return "btc"
-}
+func verifC02Side() string { return csSide3() }
 
 func VerifC02_AddLiquidity()        { verifC02Liquidity(0) }
 func VerifC02_AddLiquidityNewPool() { verifC02Liquidity(1) }
